@@ -14,10 +14,11 @@
 (* shot set comprehension.                                                 *)
 (***************************************************************************)
 EXTENDS Naturals, FiniteSets, TLC
-Dirs     == {"root", "sub", "deep", "ex"}          \* deep = sub/deep
+Dirs     == {"root", "sub", "deep", "ex", "hid"}   \* deep = sub/deep, hid = sub/.hid (a hidden directory)
 Default  == {"f90", "F90", "f", "FoR", "fpp"}      \* .f90 .F90 .f .FoR .fpp
-Suffixes == Default \cup {"f9", "bak", "inc", "txt"}   \* .f9 .f90.bak .inc .txt : look-alikes and others
-Profiles == {{}, {"f90"}, {"f90", "F90", "FoR", "f9", "bak", "txt"}, {"inc", "txt"}, {"fpp", "f"}}
+Suffixes == Default \cup {"f9", "bak", "inc", "INC", "txt"}   \* .f9 .f90.bak .inc .INC .txt : look-alikes and others
+\* a configured additional suffix is matched as written: ".INC" is not the configured ".inc"
+Profiles == {{}, {"f90"}, {"f90", "F90", "FoR", "f9", "bak", "txt"}, {"inc", "INC", "txt"}, {"fpp", "f"}}
 
 VARIABLES tree,      \* dir -> set of suffix classes present (one file per class)
           srcCfg,    \* "unset" | "sub" | "subRec" (sub/**) | "glob" (s*)
@@ -31,21 +32,21 @@ vars == <<tree, srcCfg, exclCfg, inclSuf, exclSuf, channel, stage, exclDirs, exc
 Files == {<<d, s>> : d \in Dirs, s \in Suffixes}
 Present == {f \in Files : f[2] \in tree[f[1]]}
 Accepted(s) == s \in Default \cup inclSuf
-Below(d) == CASE d = "root" -> Dirs [] d = "sub" -> {"sub", "deep"} [] d = "deep" -> {"deep"} [] d = "ex" -> {"ex"}
+Below(d) == CASE d = "root" -> Dirs [] d = "sub" -> {"sub", "deep", "hid"} [] d = "deep" -> {"deep"} [] d = "ex" -> {"ex"} [] d = "hid" -> {"hid"}
 
 XDirs == CASE exclCfg = "ex" -> {"ex"} [] exclCfg = "exRec" -> {"ex"} [] exclCfg = "sub" -> {"sub"}
-           [] exclCfg = "subRec" -> {"sub", "deep"} [] OTHER -> {}
+           [] exclCfg = "subRec" -> {"sub", "deep", "hid"} [] OTHER -> {}
 XFiles == CASE exclCfg = "file" -> {<<"sub", "f90">>}
-            [] exclCfg = "subRec" -> {f \in Present : f[1] \in {"sub", "deep"}}
+            [] exclCfg = "subRec" -> {f \in Present : f[1] \in {"sub", "deep", "hid"}}
             [] exclCfg = "exRec" -> {f \in Present : f[1] = "ex"}
             [] OTHER -> {}
 SDirs == (CASE srcCfg = "unset" -> {d \in Dirs : \E s \in tree[d] : Accepted(s)}
-            [] srcCfg = "sub" -> {"sub"} [] srcCfg = "glob" -> {"sub"}
-            [] srcCfg = "subRec" -> {"sub", "deep"}) \ XDirs
+            [] srcCfg = "sub" -> {"sub"} [] srcCfg = "glob" -> {"sub"} [] srcCfg = "dot" -> {"root"}
+            [] srcCfg = "subRec" -> {"sub", "deep", "hid"}) \ XDirs
 ExpectedIndexed == {f \in Present : f[1] \in SDirs /\ Accepted(f[2]) /\ f[2] \notin exclSuf /\ f \notin XFiles}
 
-Init == /\ tree \in [Dirs -> Profiles]
-        /\ srcCfg \in {"unset", "sub", "subRec", "glob"}
+Init == /\ tree \in {t \in [Dirs -> Profiles] : t["hid"] \in {{}, {"f90"}}}
+        /\ srcCfg \in {"unset", "sub", "subRec", "glob", "dot"}   \* "dot": the root itself, configured explicitly (".")
         /\ exclCfg \in {"none", "ex", "exRec", "sub", "subRec", "file"}
         /\ inclSuf \in {{}, {"inc"}} /\ exclSuf \in {{}, {"F90"}}
         /\ channel \in {"cli", "file"}
@@ -54,7 +55,7 @@ Init == /\ tree \in [Dirs -> Profiles]
 ResolveGlobs == /\ stage = "start" /\ stage' = "globs"
                 /\ exclDirs' = XDirs /\ exclFiles' = XFiles
                 /\ srcDirs' = IF srcCfg = "unset" THEN {"root"} ELSE
-                                (CASE srcCfg = "sub" -> {"sub"} [] srcCfg = "glob" -> {"sub"} [] srcCfg = "subRec" -> {"sub", "deep"}) \ XDirs
+                                (CASE srcCfg = "sub" -> {"sub"} [] srcCfg = "glob" -> {"sub"} [] srcCfg = "dot" -> {"root"} [] srcCfg = "subRec" -> {"sub", "deep", "hid"}) \ XDirs
                 /\ UNCHANGED <<tree, srcCfg, exclCfg, inclSuf, exclSuf, channel, indexed>>
 WalkDirs == /\ stage = "globs" /\ stage' = "dirs"
             /\ srcDirs' = IF srcCfg = "unset"
@@ -68,6 +69,6 @@ Next == ResolveGlobs \/ WalkDirs \/ ListFiles
 Spec == Init /\ [][Next]_vars
 
 StagedEqualsReference == stage = "done" => indexed = ExpectedIndexed
-LookAlikesNeverIndexed == stage = "done" => \A f \in indexed : f[2] \notin {"f9", "bak", "txt"}
+LookAlikesNeverIndexed == stage = "done" => \A f \in indexed : f[2] \notin {"f9", "bak", "txt", "INC"}
 NothingOutsideSourceDirs == stage = "done" => \A f \in indexed : f[1] \in SDirs
 =============================================================================
